@@ -8,6 +8,9 @@ package mapping_test
 // for F6, accepted with the exact value).
 
 import (
+	"encoding/json"
+	"os"
+	"path/filepath"
 	"testing"
 
 	"verif.local/kit"
@@ -81,7 +84,28 @@ func c05MinimalCases() []c05Case {
 	}
 }
 
+// c05DumpReplays writes one replay file (kit.ReplayFile format, rule "json") per
+// known root cause into the directory named by VERIF_C05_DUMP. Used once to
+// produce harness/C05/replays/.
+func c05DumpReplays(dir string) {
+	pick := map[int]string{0: "jsonnumber-overflow", 15: "setvalue-overflow", 20: "fillslice-nonslice-panic",
+		24: "fillslice-struct-elem-panic", 25: "fillslicevalue-object-elem-panic", 26: "generatemap-ptr-elem-panic",
+		29: "duration-number-panic", 31: "stringoption-number-options-panic", 34: "fillslicefromstring-ptr-elem-panic"}
+	cases := c05MinimalCases()
+	_ = os.MkdirAll(dir, 0o755)
+	for i, id := range pick {
+		raw, _ := json.Marshal(cases[i])
+		rf := kit.ReplayFile{Property: "C05", Rule: "json", Known: id, Case: raw,
+			Message: "minimal input of finding " + id + " on 7bc7747: " + c05Describe(&cases[i])}
+		b, _ := json.MarshalIndent(rf, "", " ")
+		_ = os.WriteFile(filepath.Join(dir, "json-"+id+".json"), b, 0o644)
+	}
+}
+
 func TestVerif_C05_minimal(t *testing.T) {
+	if d := os.Getenv("VERIF_C05_DUMP"); d != "" {
+		c05DumpReplays(d)
+	}
 	kit.Enumerate(t, "C05", "minimal", func(yield func(c05Case) bool) {
 		for _, c := range c05MinimalCases() {
 			if !yield(c) {
